@@ -1233,7 +1233,7 @@ func (h *harness) retention(rng *vh.RNG) {
 	runExe(60*time.Second, "session", d, "0", "0", fmt.Sprint(uint64(1)<<40), "", "0", "fill:1:150")
 	old := fractionsIn(d)
 	snap := dirCopy(work, d) // the older fraction in its active form
-	runExe(60*time.Second, "session", d, "0", "0", fmt.Sprint(uint64(1)<<40), "", "0", "seal,fill:2:150,seal")
+	runExe(60*time.Second, "session", d, "0", "0", fmt.Sprint(uint64(1)<<40), "", "0", "seal,fill:2:150,seal,fill:3:20")
 	if len(old) == 1 {
 		// crash state: the seal of the older fraction (running in the background) had not published anything yet when the
 		// newer fraction was already sealed
@@ -1258,7 +1258,70 @@ func (h *harness) retention(rng *vh.RNG) {
 				What:   fmt.Sprintf("after a restart fm.fracs is %v: the older fraction %s (unsealed at the crash) comes after newer sealed fractions, so retention (which pops the head) deletes newer data first", res.order, old[0]),
 				Replay: []string{"restart-order"}})
 		}
+		// that first start sealed the recovered fraction (it was not the last unsealed one).  From the SECOND start on all
+		// fractions are where their age puts them: fm.fracs is in creation (name) order, the writable fraction is the
+		// newest, and a retention pass that has to free one fraction removes the oldest
+		res2 := runCheck(d, false, false, "1:150,2:150,3:20")
+		sorted2 := sort.StringsAreSorted(res2.order)
+		h.orOrder.Case("second-restart order after recovery", true, "sorted="+vh.B(sorted2))
+		if res2.up && !sorted2 {
+			h.rep.Violate(vh.Violation{Site: "fracmanager/loader.go:load", Class: "fraction-order-not-by-age-after-recovery",
+				What:   fmt.Sprintf("an older fraction was recovered (replayed and sealed) by the first start after a crash; at the second start fm.fracs is %v - not in creation order (%s is the oldest), so retention removes newer data first, for good", res2.order, old[0]),
+				Replay: []string{"restart-order second"}})
+		} else if res2.up {
+			var sum int64
+			for _, v := range res2.sizes {
+				sum += v
+			}
+			runExe(60*time.Second, "session", d, "0", "0", fmt.Sprint(sum-1), "", "0", "shrink")
+			left := fractionsIn(d)
+			goneOldest := len(left) > 0 && !contains(left, old[0])
+			h.orOrder.Case("retention after recovery", true, "oldest-removed="+vh.B(goneOldest))
+			if !goneOldest {
+				h.rep.Violate(vh.Violation{Site: "fracmanager/fracmanager.go:shrinkSizes", Class: "retention-after-recovery-removes-newer-fraction",
+					What:   fmt.Sprintf("after crash recovery and two restarts a retention pass that has to free one fraction left %v: the oldest fraction %s is still there", left, old[0]),
+					Replay: []string{"restart-order second"}})
+			}
+		}
 	}
+	// two unsealed fractions at the crash (rotate, crash before the background seal ends): a full older one, a small newer one
+	da, db := filepath.Join(work, "twoA"), filepath.Join(work, "twoB")
+	os.MkdirAll(da, 0o755)
+	os.MkdirAll(db, 0o755)
+	runExe(120*time.Second, "session", da, "0", "0", fmt.Sprint(uint64(1)<<40), "", "0", fmt.Sprintf("fill:5:%d", h.o.Pick(2500, 8000)))
+	time.Sleep(5 * time.Millisecond) // the newer fraction gets a later ULID
+	runExe(60*time.Second, "session", db, "0", "0", fmt.Sprint(uint64(1)<<40), "", "0", "fill:6:40")
+	fa, fb := fractionsIn(da), fractionsIn(db)
+	if len(fa) == 1 && len(fb) == 1 && fa[0] < fb[0] {
+		for _, suf := range []string{consts.DocsFileSuffix, consts.MetaFileSuffix} {
+			copyFile(filepath.Join(db, fb[0]+suf), filepath.Join(da, fb[0]+suf))
+		}
+		res := runCheck(da, false, false, fmt.Sprintf("5:%d,6:40", h.o.Pick(2500, 8000)))
+		writable := ""
+		for _, kd := range res.kinds {
+			if f := strings.Fields(kd); len(f) == 2 && f[1] == "active" {
+				writable = f[0]
+			}
+		}
+		ok := res.up && len(res.order) >= 2 && res.order[0] == fa[0] && res.order[1] == fb[0] && writable == fb[0]
+		h.orOrder.Case("two unsealed fractions", true, "age-order-and-newest-writable="+vh.B(ok))
+		if res.up && !ok {
+			h.rep.Violate(vh.Violation{Site: "fracmanager/loader.go:load", Class: "replayed-fractions-out-of-age-order",
+				What:   fmt.Sprintf("two unsealed fractions at start-up (older %s with many documents, newer %s with few): fm.fracs is %v and the writable fraction is %s - expected age order with the newest one writable (retention pops the head, new documents go to the writable one)", fa[0], fb[0], res.order, writable),
+				Replay: []string{"restart-order two-unsealed"}})
+		}
+	} else {
+		h.orOrder.Error = fmt.Sprintf("two-unsealed scenario could not be built: %v %v", fa, fb)
+	}
+}
+
+func contains(xs []string, x string) bool {
+	for _, y := range xs {
+		if y == x {
+			return true
+		}
+	}
+	return false
 }
 
 func (h *harness) cache(rng *vh.RNG) {
